@@ -10,7 +10,7 @@ from .common import uncodes, guarded
 SIGMA1 = ['a', ' ', '\n', '\\', '{', '}', '[', ']', '$', '%', '~', '-', '*']
 SIGMA2 = ['\\begin{e}', '\\end{e}', '\\begin', '\\end', '\\(', '\\)', '\\[', '\\]']
 K_ATOMS = SIGMA1 + SIGMA2 + ['\\m', '\\o', '\\s', '\\f', '\\t', '\\q', '\\z', '\\\\', '\\v', '\\r', '\\d', '\\c',
-                             '\\begin{q}', '\\end{q}', '(', ')', '<', '>', '+', '!']
+                             '\\begin{q}', '\\end{q}', '(', ')', '<', '>', '+', '!', '\\N', '\\N{a}']
 D_ATOMS = SIGMA1 + SIGMA2 + ['\\textbf', '\\frac', '\\ensuremath', '\\text', '\\item', '\\verb', '\\sqrt', '\\\\',
                              '\\begin{equation}', '\\end{equation}', '\\begin{itemize}', '\\end{itemize}',
                              '\\begin{verbatim}', '\\end{verbatim}', '|']
@@ -57,9 +57,10 @@ MODES_LISTS = {
 
 def modes_cfg(ctxname, st_kw=None):
     d = dict(MODES_LISTS[ctxname])
-    d['inline_open'] = ['$', '\\(']
-    d['pairs'] = [['$', '$'], ['\\(', '\\)'], ['$$', '$$'], ['\\[', '\\]']]
     st = pstate.make(ctx=ctxname, **(st_kw or {}))
+    # the configured delimiter lists of the parsing state (documented defaults: $ \\( inline, $$ \\[ display)
+    d['inline_open'] = [o for o, _c in st['inline']]
+    d['pairs'] = [[o, c] for o, c in list(st['inline']) + list(st['display'])]
     d['top_math'] = bool(st['in_math'])
     d['top_delim'] = st['mdelim']
     return d
@@ -99,7 +100,18 @@ def cfg_text(ctxname, K, shard, modes, invs, variants=None):
                       invs='\n'.join('INVARIANT ' + i for i in invs), **v)
 
 
+SOUP = 100      # export_jobs(K=SOUP + n): random soups of n atoms (tlc -simulate over ParseSoup.tla) instead of all strings <= K
+SOUP_VOLUME = dict(num=150, nseeds=8)
+
+
+def kdesc(K):
+    return 'K=%d' % K if K < SOUP else 'random soups of %d atoms' % (K - SOUP)
+
+
 def export_jobs(atoms, ctxname, K, modes, invs, payload=None, timeout=3000, variants=None, st_kw=None, shards=None):
+    if K >= SOUP:
+        return soup_jobs(atoms, ctxname, K - SOUP, modes, invs, payload=payload, st_kw=st_kw, timeout=timeout,
+                         num=SOUP_VOLUME['num'], nseeds=SOUP_VOLUME['nseeds'], seed=SOUP_VOLUME.get('seed', 1))
     mc = mc_text(atoms, ctxname, st_kw, K=K)
     jobs = []
     for sh in (shards if shards is not None else range(0, len(atoms) + 1)):
@@ -108,6 +120,22 @@ def export_jobs(atoms, ctxname, K, modes, invs, payload=None, timeout=3000, vari
         jobs.append(dict(payload=pl, main='MC_ParseRun', mc=mc,
                          cfg=cfg_text(ctxname, K, sh, modes, list(invs) + ['Emit'], variants),
                          tlc_kw=dict(timeout=timeout, xmx='3g')))
+    return jobs
+
+
+def soup_jobs(atoms, ctxname, maxatoms, modes, invs, payload=None, num=300, nseeds=8, seed=1, timeout=900, st_kw=None):
+    """tlc -simulate over ParseSoup.tla: random strings of `maxatoms` atoms (one job per seed)."""
+    mc = mc_text(atoms, ctxname, st_kw, K=maxatoms).replace('MODULE MC_ParseRun', 'MODULE MC_ParseSoup').replace(
+        'EXTENDS ParseRun', 'EXTENDS ParseSoup')
+    cfg = cfg_text(ctxname, 1, 0, modes, list(invs) + ['Emit']).replace('SPECIFICATION Spec', 'SPECIFICATION SoupSpec').replace(
+        '  K = 1\n', '  K = 1\n  MaxAtoms = %d\n' % maxatoms)
+    jobs = []
+    for k in range(nseeds):
+        pl = dict(payload or {})
+        pl.update(ctx=ctxname, st_kw=st_kw or {})
+        jobs.append(dict(payload=pl, main='MC_ParseSoup', mc=mc, cfg=cfg,
+                         tlc_kw=dict(timeout=timeout, xmx='3g', simulate='num=%d' % num, depth=maxatoms + 2,
+                                     seed=(seed * 7919 + k * 104729) % (2 ** 31))))
     return jobs
 
 
